@@ -114,7 +114,7 @@ def run(tier, seed):
                 "Fibonacci-like operands (longest Euclid runs); exp with exponents 0,1,2,3,p-2,p-1,p,2^63,2^64-1 and random; "
                 "non-trivial = non-canonical operand, zero class, or extreme exponent")
     res.assumptions = ["hand model Model/Inv.lean mirrors goldilocks_base_field.cpp:106-138 and _scalar.hpp:232-252; agreement "
-                       "is established on the executed cases only", "exit(-1) is modelled as `none`; the diagnostic text on "
+                       "is established by execution on the listed cases and, for every input, by the bridge theorems C10_generated_* about the functions regenerated from the source on every run", "exit(-1) is modelled as `none`; the diagnostic text on "
                        "stderr is not compared",
                        "C10_generated_*: about Gen/InvGen.lean, regenerated from the C++ on every run (fuel-bounded loops; "
                        "the theorems hold for every fuel >= 129 resp. 64); the generated functions are executed against the "
